@@ -229,6 +229,9 @@ pub struct Kanata {
     unmodded_mods: UnmodMods,
     /// Keys that should be unshifted. If non-empty, left+right shift keys should be cleared.
     unshifted_keys: Vec<KeyCode>,
+    /// Keys in the keyberon state that are not pressed at the OS because they were pressed while
+    /// a hidden sequence input mode was active. These must not be repeated.
+    sequence_hidden_keys: Vec<KeyCode>,
     /// Keep track of last pressed key for [`CustomAction::Repeat`].
     last_pressed_key: KeyCode,
     #[cfg(feature = "tcp_server")]
@@ -446,6 +449,7 @@ impl Kanata {
             unmodded_keys: vec![],
             unmodded_mods: UnmodMods::empty(),
             unshifted_keys: vec![],
+            sequence_hidden_keys: vec![],
             last_pressed_key: KeyCode::No,
             #[cfg(feature = "tcp_server")]
             virtual_keys: cfg.fake_keys,
@@ -584,6 +588,7 @@ impl Kanata {
             unmodded_keys: vec![],
             unmodded_mods: UnmodMods::empty(),
             unshifted_keys: vec![],
+            sequence_hidden_keys: vec![],
             last_pressed_key: KeyCode::No,
             #[cfg(feature = "tcp_server")]
             virtual_keys: cfg.fake_keys,
@@ -710,6 +715,7 @@ impl Kanata {
         self.unmodded_keys.clear();
         self.unmodded_mods = UnmodMods::empty();
         self.unshifted_keys.clear();
+        self.sequence_hidden_keys.clear();
         // Continuous scrolling / mouse movement is stopped by the release handler of the action
         // that started it, which does not exist any more.
         self.scroll_state = None;
@@ -1230,6 +1236,7 @@ impl Kanata {
             if cur_keys.contains(k) {
                 continue;
             }
+            self.sequence_hidden_keys.retain(|hk| hk != k);
             self.last_tick_had_activity = true;
             log::debug!("key release   {:?}", k);
             if let Err(e) = release_key(&mut self.kbd_out, k.into()) {
@@ -1300,6 +1307,9 @@ impl Kanata {
             }
 
             if let Some(state) = self.sequence_state.get_active() {
+                if state.sequence_input_mode != SequenceInputMode::VisibleBackspaced {
+                    self.sequence_hidden_keys.push(*k);
+                }
                 do_sequence_press_logic(
                     state,
                     k,
